@@ -1,17 +1,3 @@
 package main
 
-import (
-	"fmt"
-	"os"
-
-	"verif/harness/props"
-	"verif/harness/univ"
-)
-
-func main() {
-	u, err := univ.Decode(os.Args[1])
-	if err != nil {
-		panic(err)
-	}
-	fmt.Println(props.PyPIResolveDump(u, [2]string{os.Args[2], os.Args[3]}))
-}
+func main() {}
